@@ -1,12 +1,12 @@
 (* C08, last clause: the anchored form of an accepted request applies to the same state as the
    request itself.  Byte level: the applier's views of the two byte strings (derived by the parser
    mirror in batch mode) differ only in the member order of the patches, and the applier does not
-   see that order (ApplierOrder.v).  Update and deactivate requests; deltas of dedicated actions. *)
+   see that order (ApplierOrder.v).  Update and deactivate requests; deltas of order_blind actions. *)
 From Coq Require Import ZArith NArith String Ascii List Bool Lia.
 From Sidetree Require Import Base.Sha2 Json.Json Json.Jcs Json.Parse Json.JcsProps Json.JcsRoundTrip
      Sidetree.Protocol Sidetree.Window Sidetree.JsonPatch Sidetree.Composer Sidetree.Validator Sidetree.Hashing Sidetree.Parser Sidetree.Applier
      Sidetree.Resolve Sidetree.Rules Sidetree.JequivDecode Sidetree.ValidatorJequiv Sidetree.Respell Sidetree.ClientUpdate
-     Sidetree.ClientDeactivateRecover Sidetree.ClientSimple Sidetree.ClientApply Sidetree.ClientApplySigned Sidetree.Anchored Sidetree.ComposerOrder Sidetree.ApplierOrder.
+     Sidetree.ClientDeactivateRecover Sidetree.ClientSimple Sidetree.ClientApply Sidetree.ClientApplySigned Sidetree.Anchored Sidetree.ComposerOrder Sidetree.JsonPatchOrder Sidetree.ComposerOrderAll Sidetree.ApplierOrder.
 Import ListNotations.
 Open Scope string_scope.
 
@@ -48,7 +48,7 @@ Section AnchoredApply.
   Theorem update_anchored_applies_alike bytes p b' sig_ok t num ver canon equiv rm rm' :
     parse_operation cfg uri_ok url_norm origin_ok time_ok bytes false = Some p -> p_type p = "update" ->
     anchored_bytes p = Some b' -> (Z.of_nat (String.length b') <= P_MaxOperationSize cfg)%Z ->
-    (forall d, p_delta p = Some d -> Forall dedicated (d_patches d)) ->
+    (forall d, p_delta p = Some d -> Forall order_blind (d_patches d)) ->
     rm_rel rm rm' ->
     opt_rm_rel (apply_bytes cfg uri_ok url_norm TUpdate bytes sig_ok t num ver canon equiv rm)
                (apply_bytes cfg uri_ok url_norm TUpdate b' sig_ok t num ver canon equiv rm').
@@ -114,7 +114,7 @@ Section AnchoredApply.
   Theorem recover_anchored_applies_alike bytes p b' sig_ok t num ver canon equiv rm rm' :
     parse_operation cfg uri_ok url_norm origin_ok time_ok bytes false = Some p -> p_type p = "recover" ->
     anchored_bytes p = Some b' -> (Z.of_nat (String.length b') <= P_MaxOperationSize cfg)%Z ->
-    (forall d, p_delta p = Some d -> Forall dedicated (d_patches d)) ->
+    (forall d, p_delta p = Some d -> Forall order_blind (d_patches d)) ->
     rm_rel rm rm' ->
     opt_rm_rel (apply_bytes cfg uri_ok url_norm TRecover bytes sig_ok t num ver canon equiv rm)
                (apply_bytes cfg uri_ok url_norm TRecover b' sig_ok t num ver canon equiv rm').
@@ -165,7 +165,7 @@ Section AnchoredApply.
   Theorem create_anchored_applies_alike bytes p b' sig_ok t num ver canon equiv rm rm' :
     parse_operation cfg uri_ok url_norm origin_ok time_ok bytes false = Some p -> p_type p = "create" ->
     anchored_bytes p = Some b' -> (Z.of_nat (String.length b') <= P_MaxOperationSize cfg)%Z ->
-    (forall d, p_delta p = Some d -> Forall dedicated (d_patches d)) ->
+    (forall d, p_delta p = Some d -> Forall order_blind (d_patches d)) ->
     rm_rel rm rm' ->
     opt_rm_rel (apply_bytes cfg uri_ok url_norm TCreate bytes sig_ok t num ver canon equiv rm)
                (apply_bytes cfg uri_ok url_norm TCreate b' sig_ok t num ver canon equiv rm').
@@ -201,13 +201,13 @@ Section History.
     match t with TCreate => "create" | TUpdate => "update" | TRecover => "recover" | TDeactivate => "deactivate" | TOther => "" end.
 
   (* the request was accepted at request time, [as_anchored] is its anchored form (within the size
-     limit), and its delta uses dedicated actions *)
+     limit), and its delta uses order_blind actions *)
   Definition astep_ok (s : astep) : Prop :=
     exists p, parse_operation cfg uri_ok url_norm origin_ok time_ok (as_bytes s) false = Some p /\
       p_type p = type_name (as_type s) /\ as_type s <> TOther /\
       anchored_bytes p = Some (as_anchored s) /\
       (Z.of_nat (String.length (as_anchored s)) <= P_MaxOperationSize cfg)%Z /\
-      (forall d, p_delta p = Some d -> Forall dedicated (d_patches d)).
+      (forall d, p_delta p = Some d -> Forall order_blind (d_patches d)).
 
   Definition step_with (pick : astep -> string) (rm : rmodel) (s : astep) : rmodel :=
     match apply_bytes cfg uri_ok url_norm (as_type s) (pick s) (as_sig s) (as_time s) (as_num s) (as_ver s) (as_canon s) (as_equiv s) rm with
